@@ -96,7 +96,7 @@ fn replay_once(v: &Value, c: &Collector) {
     match (prop.as_str(), &op) {
         ("C03", Some(Op::Feed(chunks, utf8))) => {
             let full = chunks.concat();
-            let w = full.strip_suffix("x\x1b[2;3Hy").unwrap_or(&full).to_string();
+            let w = full.strip_suffix(crate::props3::PROBE).unwrap_or(&full).to_string();
             let mut l = E1Local::new();
             crate::props3::c03_word(c, &w, *utf8, &mut l, &engine);
             return;
@@ -117,13 +117,13 @@ fn replay_once(v: &Value, c: &Collector) {
             match op2 {
                 Op::Feed(chunks, utf8) => {
                     let single = screen_after_chars(&start, &[chunks.concat()], *utf8);
-                    let base = single.as_ref().ok().map(snap);
+                    let base = single.as_ref().ok().map(crate::snapshot::snap_raw);
                     let r = screen_after_chars(&start, chunks, *utf8);
                     crate::props3::c02_verdict(c, &start, &script, op2.clone(), &base, &single, r, "chars");
                 }
                 Op::FeedBytes(chunks, utf8) => {
                     let single = screen_after_bytes(&start, &[chunks.concat()], *utf8);
-                    let base = single.as_ref().ok().map(snap);
+                    let base = single.as_ref().ok().map(crate::snapshot::snap_raw);
                     let r = screen_after_bytes(&start, chunks, *utf8);
                     crate::props3::c02_verdict(c, &start, &script, op2.clone(), &base, &single, r, "bytes");
                 }
